@@ -203,6 +203,15 @@ fn scenarios(quick: bool) -> Vec<Scenario> {
         ));
     }
 
+    // S9: several calls that are refused at the same time (each error is about its own call)
+    let s9 = vec![single(M::A, Entry::EachCall, 1, vec![seg(Resp::Ret(901), Quant::Open)])];
+    base.push(("S9-two-refused".into(), s9.clone(), vec![vec![(M::A, 1)], vec![(M::A, 2)]]));
+    base.push((
+        "S9-refused-and-accepted".into(),
+        s9,
+        vec![vec![(M::A, 1), (M::A, 0)], vec![(M::A, 2)], vec![(M::A, 0)]],
+    ));
+
     let mut out = vec![];
     for (name, clauses, threads) in base {
         for sharing in [Sharing::Clones, Sharing::SharedRef] {
@@ -233,6 +242,8 @@ enum Token {
     Panic(PanicClass),
     /// not one of unimock's errors
     Foreign(String),
+    /// one of unimock's errors, but rendered for another call
+    Misattributed(String),
 }
 
 #[derive(Clone, Debug, PartialEq, Eq, PartialOrd, Ord, Hash)]
@@ -248,9 +259,13 @@ struct Outcome {
     recorded_errors: usize,
 }
 
-fn token_of(obs: &Obs, names: &unimock::verif::Snapshot, model: &Model) -> Token {
+fn token_of(obs: &Obs, call: (M, u8), names: &unimock::verif::Snapshot, model: &Model) -> Token {
     match obs {
         Obs::Value(v) => Token::Value(*v),
+        // a mock-induced panic is about the call that raised it (C19 under concurrency)
+        Obs::Panic(msg) if classify(msg) != PanicClass::Other && !msg.starts_with(&format!("{}({})", call.0.path(), call.1)) => {
+            Token::Misattributed(format!("the panic raised by {}({}) reads {msg:?}", call.0.path(), call.1))
+        }
         Obs::Panic(msg) => match classify(msg) {
             PanicClass::MoreThanOnce => {
                 for (m, pats) in &model.methods {
@@ -311,7 +326,7 @@ fn run_sequential(sc: &Scenario, order: &[usize], model: &Model) -> Outcome {
         let (m, x) = sc.threads[*t][next[*t]];
         next[*t] += 1;
         let step = observe_call(&clones[*t], m, x);
-        per_thread[*t].push(token_of(&step.obs, &names, model));
+        per_thread[*t].push(token_of(&step.obs, (m, x), &names, model));
     }
     drop(clones);
     let (fin, recorded_errors) = finalise(original);
@@ -383,8 +398,9 @@ fn run_scheduled(sc: &Scenario, prefix: &[u8], model: &Model) -> (Outcome, Trace
     let mut aborted = false;
     let per_thread: Vec<Vec<Token>> = results
         .into_iter()
-        .map(|r| match r {
-            Ok(obs) => obs.iter().map(|o| token_of(o, &names, model)).collect(),
+        .enumerate()
+        .map(|(ti, r)| match r {
+            Ok(obs) => obs.iter().zip(sc.threads[ti].iter()).map(|(o, c)| token_of(o, *c, &names, model)).collect(),
             Err(msg) => {
                 if is_scheduler_abort(&msg) {
                     aborted = true;
@@ -476,6 +492,7 @@ fn check_outcome(
             },
             Token::Exhausted(id) => handed.entry(*id).or_default().push(t.clone()),
             Token::Foreign(msg) => return Err(("position", format!("unexpected panic: {msg}"))),
+            Token::Misattributed(what) => return Err(("message", what.clone())),
             Token::Panic(_) => {}
         }
     }
